@@ -478,11 +478,16 @@ Proof. exact write_back_unplaced_refuted. Qed.
 
 
 (* [F on the stated domain] C02 + C04 in one statement, in the form of the property: after legalization
-   (legal c, orient_ok before c) fromIspdCircuit does not fail ("never fails on a circuit that
-   legalization accepts"), and whatever the optimiser then does with swaps, inserts and shift passes
-   (arbitrary arguments; shift passes satisfying their constraints) the circuit it exposes is legal,
+   (legal c, orient_ok before c) fromIspdCircuit + constructor + check() do not fail (the CONSTRUCTOR part of
+   "never fails on a circuit that legalization accepts"; the throws of the passes themselves -- runShiftsOnCells,
+   DetailedPlacer::check, RowReordering::check, IncrNetModel constructors -- are not modelled and are validated
+   absent per run), and for every HISTORY of swaps, inserts and shift passes
+   (arbitrary arguments; shift passes satisfying their constraints; a refused operation is a no-op) the circuit it exposes is legal,
    has the cells it does not optimise exactly where legalization put them, and -- when the rows have a
-   known orientation -- carries the prescribed orientations *)
+   known orientation -- carries the prescribed orientations.  This is a statement about every history, not about
+   DetailedPlacer::run (not modelled).  `std_design c rh` is assumed of the LEGALIZED circuit (no lemma shows that
+   legalize_circuit preserves std_design); `orient_ok before c` is supplied by C04 only under row_orient_by_y or for
+   row-high designs.  Histories containing a reorder pass: separate theorem c02_closed_reordering_exposes_legal. *)
 Theorem c02_detailed_placement_exposes_legal_circuits : forall before c rh,
   std_design c rh -> legal c -> orient_ok before c ->
   exists s, from_circuit c = DOk s /\
